@@ -5,6 +5,8 @@ From Coq Require Import List Arith NArith Bool Permutation.
 From OBI.C04 Require Import Json Csv.
 From OBI.Common Require Import Reseq.
 From OBI.C04 Require Import Model Proofs.
+From OBI.C04 Require Import Glue GlueProofs.
+From Coq Require Import Sorted.
 Import ListNotations.
 
 (** the loop shared by the three writers = emit chunk 0, 1, ..., n-1 in this order, whatever [e] does *)
@@ -150,6 +152,106 @@ Example C04_records_nonvacuous :
   csv_line [[97; 44; 98]; []; [32; 120]; [113; 34]]%N = [34; 97; 44; 98; 34; 44; 44; 34; 32; 120; 34; 44; 34; 113; 34; 34; 34; 10]%N.
 Proof. cbv zeta. split; [repeat constructor|]. vm_compute. auto. Qed.
 
+(** ================= round 3: the glue around the writers (Glue.v) *)
+
+(** WriteSeqFileChunk(writer, toBeClosed) driven with ANY chunks: the bytes are the chunks in order for
+    every arrival permutation; the sink is closed once iff toBeClosed *)
+Theorem C04_chunk_writer_any_permutation : forall tbc l arr, Permutation arr (numbered l) ->
+  chunk_writer tbc arr = mkdev (concat l) (if tbc then 1 else 0).
+Proof. exact chunk_writer_spec. Qed.
+
+(** the *ToFile entry points: whatever the file held before and whatever the arrival order, it holds
+    afterwards exactly the framed batches in order - after its former content iff appending was asked *)
+Theorem C04_file_truncated_or_appended : forall k app old header chunks order,
+  Permutation order (seq 0 (length chunks)) ->
+  file_writer k app old header chunks order = (if app then old else []) ++ expected_of k header chunks.
+Proof. exact file_writer_spec. Qed.
+Theorem C04_paired_files : forall k app old1 old2 header fwd rev order,
+  length rev = length fwd -> Permutation order (seq 0 (length fwd)) ->
+  paired_files k app old1 old2 header fwd rev order =
+  ((if app then old1 else []) ++ expected_of k header fwd, (if app then old2 else []) ++ expected_of k header rev).
+Proof. exact paired_files_spec. Qed.
+
+(** FASTA / FASTQ over RECORDS: the chunk of a batch is the texts of its records that have a sequence
+    (zero-length sequences are skipped), so for every batch partition and arrival order the output is
+    the text of every record with a sequence, once, in order *)
+Theorem C04_fastx_records : forall (batches : list (list (bool * chunk))) arr,
+  Permutation arr (numbered (fastx_record_chunks batches)) ->
+  fastx_writer arr = mkdev (concat (map snd (filter fst (concat batches)))) 1.
+Proof. exact fastx_records_spec. Qed.
+
+(** the universal writer decides its format from the first non-empty batch that ARRIVES; on a stream
+    whose non-empty batches agree about qualities (q) the decision, hence the output, does not depend
+    on the arrival order nor on which batches are empty: the FASTQ (q) / FASTA chunks in order, one Close *)
+Theorem C04_universal_homogeneous : forall (q : bool) quals fa fq order,
+  Forall (fun x => x = BEmpty \/ x = (if q then BQual else BNoQual)) quals ->
+  length fa = length quals -> length fq = length quals ->
+  (forall i, nth i quals BEmpty = BEmpty -> nth i fa [] = nth i fq []) ->
+  Permutation order (seq 0 (length quals)) ->
+  universal_writer quals fa fq order = mkdev (concat (if q then fq else fa)) 1.
+Proof. exact universal_homogeneous. Qed.
+(** ... in particular on a FASTQ stream holding zero-length reads (which carry no quality): a batch says
+    FASTQ, or nothing when it has no read with a sequence; so the output is FASTQ for every arrival order.
+    The unrepaired writer looked at the first record of the first batch to arrive, whatever its length:
+    the same stream came out as FASTQ or as FASTA (qualities lost) depending on the arrival order. *)
+Theorem C04_universal_fastq_stream : forall (batches : list (list (bool * bool))) fa fq order,
+  Forall (Forall (fun r => fst r = true -> snd r = true)) batches ->
+  length fa = length batches -> length fq = length batches ->
+  (forall i, nth i (map bq_of batches) BEmpty = BEmpty -> nth i fa [] = nth i fq []) ->
+  Permutation order (seq 0 (length batches)) ->
+  universal_writer (map bq_of batches) fa fq order = mkdev (concat fq) 1.
+Proof. exact universal_fastq_stream. Qed.
+Theorem C04_universal_orig_first_record_refuted :
+  let batches := [[(true, true)]; [(false, false); (true, true)]] in
+  Forall (Forall (fun r => fst r = true -> snd r = true)) batches /\
+  decide (map bq_of_orig batches) [0; 1] = true /\ decide (map bq_of_orig batches) [1; 0] = false /\
+  decide (map bq_of batches) [0; 1] = true /\ decide (map bq_of batches) [1; 0] = true.
+Proof. exact universal_orig_first_record_refuted. Qed.
+(** no batch at all: the (repaired) universal writer still closes the output once; the unrepaired one
+    left it open (0-byte compressed files) *)
+Theorem C04_universal_no_batch_closes : forall quals fa fq, universal_writer quals fa fq [] = mkdev [] 1.
+Proof. exact universal_no_batch. Qed.
+Theorem C04_universal_orig_refuted : closes (universal_writer_orig [] [] [] []) = 0.
+Proof. exact universal_orig_no_batch. Qed.
+
+(** CSVHeader / CSVRecord under every column option: every row has exactly the columns of the header;
+    hence for every arrival order the output decodes to the header followed by one row per record in
+    order, all of the header's width *)
+Theorem C04_csv_rectangular : forall o r, length (csv_record o r) = length (csv_header o).
+Proof. exact csv_rectangular. Qed.
+Theorem C04_csv_table : forall o (recs : list (list crec)) arr, recs <> [] -> csv_header o <> [] ->
+  Permutation arr (numbered (csv_record_chunks (csv_header o) (map (map (csv_record o)) recs))) ->
+  csv_records (got (csv_writer arr)) = Some (csv_header o :: map (csv_record o) (concat recs)) /\
+  Forall (fun row => length row = length (csv_header o)) (map (csv_record o) (concat recs)).
+Proof. exact csv_table. Qed.
+
+(** obicsv --auto: the proposed columns are a function of batch 0 alone - not of the arrival order -,
+    strictly increasing in byte order (so without duplicates), and exactly the keys of batch 0 *)
+Theorem C04_auto_columns_arrival_independent : forall explicit (l : list (list field)) arr,
+  Permutation arr (numbered l) ->
+  auto_columns explicit arr = explicit ++ match l with b0 :: _ => sort_keys b0 | [] => [] end.
+Proof. exact auto_columns_spec. Qed.
+Theorem C04_auto_columns_sorted : forall l,
+  StronglySorted flt (sort_keys l) /\ NoDup (sort_keys l) /\ forall k, In k (sort_keys l) <-> In k l.
+Proof. intros l. split; [apply sort_keys_sorted|split; [apply sorted_nodup, sort_keys_sorted|intros k; apply sort_keys_In]]. Qed.
+
+(** the hypotheses of round 3 are satisfiable and the definitions compute: a FASTQ stream with a leading
+    empty batch arriving first; appending to a file; columns proposed from batch 0 arriving last *)
+Example C04_glue_nonvacuous :
+  let quals := [BEmpty; BQual; BQual] in
+  let fq := [[]; [64; 97]; [64; 98]]%N in
+  Permutation [0; 2; 1] (seq 0 (length quals)) /\
+  universal_writer quals [] fq [0; 2; 1] = mkdev [64; 97; 64; 98]%N 1 /\
+  file_writer KJson true [111]%N [] [[49]; []; [50]]%N [2; 1; 0] = [111; 91; 10; 49; 44; 10; 50; 10; 93; 10]%N /\
+  file_writer KCsv false [111]%N [104; 10]%N [[49; 10]; [50; 10]]%N [1; 0] = [104; 10; 49; 10; 50; 10]%N /\
+  auto_columns [[107]]%N [(1, [[122]]%N); (0, [[98]; [97; 98]; [97]; [98]]%N)] = [[107]; [97]; [97; 98]; [98]]%N /\
+  csv_record (mkco true false true false [[107]]%N true true [78; 65]%N)
+             (mkcr [120]%N [49]%N [49]%N true None [] [([107], [118])]%N [97]%N None) = [[120]; [49]; s_root; [118]; [97]; [78; 65]]%N.
+Proof.
+  cbv zeta. split; [|vm_compute; repeat split].
+  cbn. apply perm_skip. apply perm_swap.
+Qed.
+
 Print Assumptions C04_writer_loop_any_permutation.
 Print Assumptions C04_every_batch_once_in_order.
 Print Assumptions C04_fastx_bytes.
@@ -171,3 +273,16 @@ Print Assumptions C04_iter_end_implies_sink_closed.
 Print Assumptions C04_iter_end_after_wait.
 Print Assumptions C04_iter_end_orig_refuted.
 Print Assumptions C04_wait_before_channel_close_blocks.
+Print Assumptions C04_chunk_writer_any_permutation.
+Print Assumptions C04_file_truncated_or_appended.
+Print Assumptions C04_paired_files.
+Print Assumptions C04_universal_homogeneous.
+Print Assumptions C04_universal_no_batch_closes.
+Print Assumptions C04_universal_orig_refuted.
+Print Assumptions C04_csv_rectangular.
+Print Assumptions C04_csv_table.
+Print Assumptions C04_auto_columns_arrival_independent.
+Print Assumptions C04_auto_columns_sorted.
+Print Assumptions C04_universal_fastq_stream.
+Print Assumptions C04_universal_orig_first_record_refuted.
+Print Assumptions C04_fastx_records.
